@@ -7,7 +7,8 @@ RULE = ("complete enumeration: all byte strings of length 1..2 (thorough ..3), a
         "tail pattern) triples, all Base58 strings of length 1..3 (thorough ..4), all payloads of length 0..2 with "
         "reference checksum, and for shaped payloads every single substitution/insertion/deletion/'1'-prefix mutant; "
         "a case is non-trivial when the implementation's answer was compared with the reference codec; cases are "
-        "distinct by construction (different input strings)")
+        "distinct by construction (different input strings)"
+        "; intermediate-corner classes (vf/corners.py) for checksum bytes and Base58 digits (zero digit / zero pair at every inner position) of 34- and 52-character strings; every CONSUMER of Base58Check strings (wallet constructors, node parsers, BIP85, WIF import, address helper) x edited / transposed / wrong-checksum variants of valid strings")
 A = enc.B58
 LAST = ["codec"]
 LOOKALIKE = "0OIl"
